@@ -1,4 +1,5 @@
 import HotstuffModel.Generated.Switches
+import HotstuffModel.Generated.Guards
 /-
 Model of `mempool::batch_maker::BatchMaker` (/repo/mempool/src/batch_maker.rs), of the batch path
 of `mempool::processor::Processor` (processor.rs) and of `MempoolReceiverHandler::dispatch`
@@ -71,9 +72,9 @@ def sealBatch (cfg : Cfg) (s : State) : Except PanicSite (State × List (List (L
 def step (cfg : Cfg) (s : State) : Ev → Except PanicSite (State × List (List (List Nat)))
   | .tx t =>
     let s' : State := { cur := s.cur ++ [t], size := s.size + t.length }
-    if cfg.batchSize ≤ s'.size then sealBatch cfg s' else .ok (s', [])
+    if Gen.sealOnSize s'.size cfg.batchSize then sealBatch cfg s' else .ok (s', [])
   | .timer =>
-    if s.cur.isEmpty then .ok (s, []) else sealBatch cfg s
+    if Gen.sealOnTimer s.cur.isEmpty s.size then sealBatch cfg s else .ok (s, [])
 
 /-- Run an event list; the sealed batches in order.  A panic ends the task. -/
 def run (cfg : Cfg) : State → List Ev → Except PanicSite (State × List (List (List Nat)))
